@@ -974,3 +974,439 @@ def buckets(case, ans):
                 if kids and not pat.search(texts[kids[0]]) and any(pat.search(texts[j]) for j in kids[1:]):
                     out.append("gd-defect:later-child-ignored")
     return out
+
+
+# ================================================================== typed defaults (kind `tx`) and two live instances (`pair`)
+# Appended as wrappers around the functions above, so that the older streams and their seeds stay as they were.
+#
+# (tx) Python compares 0 == False == 0.0, 1 == True == 1.0, 1500 == 1500.0, -1 == -1.0 (equal hashes too), but
+# result_type(default) depends on the TYPE of the default (str(1500.0) == '1500.0', str(False) == 'False') and an untyped
+# default comes back as the object it is.  A tx case asks SEVERAL extractions back to back in one impl() call, mostly on
+# lines where nothing matches, with defaults that walk through such an equality class for one result type -- a conversion
+# memo keyed without the type answers the second one with the first one's conversion.  Model: Ccp.Model.TypedX, channel
+# `typedx` (float and bool defaults; a float is sent by its positional repr, asserted exact).
+#
+# (pair) two configs from one template, BOTH parsed first, then the same typed extractions on corresponding lines of A,
+# then B, then A again; each judged for the instance it was asked of and compared with the model's answer for that
+# instance alone (see props/pairlib.py).
+from props import pairlib as PL  # noqa: E402
+
+EQUAL_CLASSES = [[0, False, 0.0, -0.0], [1, True, 1.0], [1500, 1500.0], [-1, -1.0], [7, 7.0], [65535, 65535.0], ["", None]]
+TYPED_MENU = [0, False, 0.0, 1, True, 1.0, 1500, 1500.0, -1, -1.0, "", None]
+MENU_EXTRA = [-0.0, 0.5, 2.25, 7, 7.0, "0", "1", "1500", "1500.0", "True", "False", "-1", "1.0", "0.0", 65535, 65535.0]
+FLOAT_TEXT = re.compile(r"^-?\d+\.\d+$")
+
+
+def enc_arg_x(v):
+    if type(v) is bool:
+        return "B1" if v else "B0"
+    if type(v) is float:
+        r = repr(v)
+        assert FLOAT_TEXT.match(r) and float(r) == v, r      # positional and exact: what the model's ArgX.float stands for
+        return "F" + r
+    return enc_arg(v)
+
+
+def enc_val_x(v):
+    if type(v) is bool:
+        return "B1" if v else "B0"
+    return enc_val(v)
+
+
+def mk_tx(syntax, ign, delims, lines, regex, compiled, group, queries, origin="tx"):
+    """like mk(), for channel `typedx`: defaults (and IPv4Obj arguments) may be floats or bools"""
+    pat = re.compile(regex)
+    case = {"kind": "tx", "syntax": syntax, "factory": False, "ignore_blank": bool(ign), "delims": delims, "lines": list(lines),
+            "regex": regex, "compiled": bool(compiled), "group": group, "queries": queries, "_origin": origin, "req": None}
+    if not all(wire.wire_safe(l) for l in lines):
+        return case
+    texts = sorted(set(lines))
+    rows = [group_row(pat, group, t) for t in texts]
+    ipargs, seen = [], set()
+    if any(q["ty"] == "ip" for q in queries):
+        for a in [None] + [wire.dec_str(r) for r in rows if r.startswith("s")] + [q["default"] for q in queries if q["ty"] == "ip"]:
+            k = enc_arg_x(a)
+            if k not in seen:
+                seen.add(k)
+                ipargs.append(a)
+    qs = ["%d:%s:%s:%d:%d:%s" % (q["idx"], q["op"], q["ty"], q["recurse"], q["untyped"], enc_arg_x(q["default"])) for q in queries]
+    ds = T.cfg_delims(syntax, delims)
+    case["req"] = wire.req(
+        "typedx", "1" if syntax == "ios" else "0", wire.enc_str("".join(ds)), "1" if ign else "0",
+        wire.enc_strs(lines), wire.enc_strs(texts), " ".join(rows),
+        " ".join(enc_arg_x(a) for a in ipargs), " ".join(ip_row(a) for a in ipargs), " ".join(qs))
+    return case
+
+
+def menu_sequence(rng, n):
+    """defaults of n consecutive queries: an equality class in random order, then neighbours from the menu"""
+    cls = list(rng.choice(EQUAL_CLASSES))
+    rng.shuffle(cls)
+    out = cls[:n]
+    while len(out) < n:
+        r = rng.random()
+        out.append(rng.choice(TYPED_MENU) if r < 0.6 else rng.choice(MENU_EXTRA) if r < 0.9 else rng.choice(DEFAULTS))
+    if rng.random() < 0.3:
+        rng.shuffle(out)
+    return out
+
+
+def tx_queries(rng, lines, n, focus=None):
+    ty0 = rng.choice(["str", "str", "str", "int", "float", "ip"])
+    op0 = rng.choice(["typed", "iter", "iter", "root", "match"])
+    same_ty, same_op = rng.random() < 0.75, rng.random() < 0.6
+    qs = []
+    for d in menu_sequence(rng, n):
+        idx = focus if (focus is not None and rng.random() < 0.6) else rng.randrange(max(1, len(lines)))
+        qs.append({"idx": idx, "op": op0 if same_op else rng.choice(["typed", "iter", "root", "match", "list"]),
+                   "ty": ty0 if same_ty else rng.choice(TYPES), "recurse": int(rng.random() < 0.5),
+                   "untyped": int(rng.random() < 0.15), "default": d})
+    return qs
+
+
+def rand_tx_case(rng):
+    regex = rng.choice(REGEXES)
+    pat = re.compile(regex)
+    hits, miss = split_vocab(pat)
+    focus = None
+    r = rng.random()
+    if r < 0.55:
+        lines = rand_tree(rng, hits, miss, 0.0, rng.choice([1, 2, 3, 5, 8]))
+        lines = [l for l in lines if not pat.search(l)] or ["x"]
+    elif r < 0.8:
+        lines, focus = placed_tree(rng, hits, miss, rng.choice([3, 4, 6, 8]))
+    else:
+        lines = rand_tree(rng, hits, miss, 0.15, rng.choice([2, 3, 5, 8]))
+    g = rng.choice([x for x in [1, 1, 1, 2, 0] if x <= pat.groups])
+    return mk_tx(rng.choice(T.SYNTAXES), rng.random() < 0.2, rng.choice(T.DELIM_SETS), lines, regex, rng.random() < 0.2, g,
+                 tx_queries(rng, lines, rng.choice([3, 4, 4, 6, 8]), focus))
+
+
+def tx_menu_cases():
+    """(1) every ordered pair of two members of an equality class as the defaults of two consecutive extractions on a line
+    that does not match, x result type x op: the smallest self-contained input on which a conversion remembered without
+    the type shows (a replay of that one case in a fresh process fails as well); (2) every result type x every op with
+    a default x the whole menu in order and reversed"""
+    for ty in TYPES:
+        for op in ("typed", "iter", "root", "match"):
+            for cls in EQUAL_CLASSES:
+                for a in cls:
+                    for b in cls:
+                        if a is not b:
+                            qs = [{"idx": 0, "op": op, "ty": ty, "recurse": 1, "untyped": 0, "default": d} for d in (a, b)]
+                            yield mk_tx("ios", False, None, ["x"], r"nomatchatall(\d)", False, 1, qs, "tx-pairs")
+    for ty in TYPES:
+        for op in ("typed", "iter", "root", "match"):
+            for menu in (TYPED_MENU, TYPED_MENU[::-1], MENU_EXTRA):
+                for unt in (0, 1):
+                    qs = [{"idx": 0, "op": op, "ty": ty, "recurse": 1, "untyped": unt, "default": d} for d in menu]
+                    yield mk_tx("ios", False, None, ["x", " y"], r"nomatchatall(\d)", False, 1, qs, "tx-menu")
+
+
+def _run_queries(p, case, enc):
+    """the queries of a plain / tx case on an instance that is already parsed"""
+    from ciscoconfparse2.ccp_util import IPv4Obj
+    tys = {"str": str, "int": int, "float": float, "ip": IPv4Obj}
+    regex = re.compile(case["regex"]) if case["compiled"] else case["regex"]
+    objs = list(p.objs)
+    out = []
+    for q in case["queries"]:
+        rt = tys[q["ty"]]
+        kw = call_kw(case, group=case["group"], result_type=rt, default=q["default"], untyped_default=bool(q["untyped"]))
+        try:
+            if q["op"] == "root":
+                v = p.re_match_iter_typed(regex, **kw)
+            elif q["idx"] >= len(objs):
+                out.append("oob")
+                continue
+            else:
+                o = objs[q["idx"]]
+                if q["op"] == "match":
+                    v = o.re_match(regex, **call_kw(case, group=case["group"], default=q["default"]))
+                elif q["op"] == "typed":
+                    v = o.re_match_typed(regex, **kw)
+                elif q["op"] == "iter":
+                    v = o.re_match_iter_typed(regex, **call_kw(case, recurse=bool(q["recurse"])), **kw)
+                elif q["op"] == "list":
+                    v = o.re_list_iter_typed(regex, **call_kw(case, group=case["group"], result_type=rt, recurse=bool(q["recurse"])))
+                else:
+                    raise AssertionError(q["op"])
+            out.append(enc(v))
+        except AssertionError:
+            raise
+        except Exception as e:  # noqa: BLE001
+            out.append("err:" + type(e).__name__)
+    return "|".join(out) + "&" + wire.enc_strs([o.text for o in objs]) + "|" + T.lnums([o.parent for o in objs])
+
+
+def _impl_tx(case):
+    quiet_ccp()
+    try:
+        p = T.parse_impl(case)
+    except BaseException as e:  # noqa: BLE001
+        return "err:" + type(e).__name__
+    return _run_queries(p, case, enc_val_x)
+
+
+def ref_conv_x(ty, x):
+    """the requested type applied by Python itself to the default AS TYPED by the caller"""
+    try:
+        if ty == "str":
+            return "S" + wire.enc_str(str(x))
+        if ty == "int":
+            return "I%d" % int(x)
+        if ty == "float":
+            return "F" + wire.enc_str(repr(float(x)))
+    except (TypeError, ValueError) as e:
+        return "err:" + type(e).__name__
+    return ref_conv(ty, x) if isinstance(x, str) else SKIP
+
+
+_NOMATCH = "\x00nothing matched\x00"
+
+
+def expectation_x(case, q, texts, parents):
+    """expectation() for a default of any type: which line answers is decided as before; when none does, the default is
+    handed back as the object it is (re_match, untyped_default) or converted by Python itself"""
+    probe = expectation(case, dict(q, default=_NOMATCH, untyped=1), texts, parents)
+    if probe != "S" + wire.enc_str(_NOMATCH):
+        return probe                             # a line answered (or list / oob / not judged): the default plays no part
+    if q["op"] == "match" or q["untyped"]:
+        return enc_val_x(q["default"])
+    return ref_conv_x(q["ty"], q["default"])
+
+
+def _oracle_tx(case, ans):
+    if "&" not in ans:
+        return [f"parse raised {ans}"]
+    res, texts, parents = parse_ans(ans)
+    fails = []
+    for k, (q, got) in enumerate(zip(case["queries"], res)):
+        want = expectation_x(case, q, texts, parents)
+        if want is SKIP:
+            continue
+        if got != want:
+            fails.append("query %d: %s(line %d, %r, group=%d, type=%s, recurse=%d, default=%r, untyped=%d) returned %s, expected %s%s" % (
+                k, q["op"], q["idx"], case["regex"], case["group"], q["ty"], q["recurse"], q["default"], q["untyped"], show(got), show(want),
+                "" if k == 0 else " (earlier defaults in this call sequence: %r)" % [x["default"] for x in case["queries"][:k]]))
+    return fails[:3]
+
+
+def _typed_classes(case):
+    """equality classes of which two differently typed members are defaults of this case"""
+    out = []
+    ds = [q["default"] for q in case["queries"]]
+    for a in ds:
+        for b in ds:
+            if type(a) is not type(b) and a is not None and b is not None and not isinstance(a, str) and not isinstance(b, str) and a == b:
+                out.append(repr(min(a, b, key=lambda v: (type(v).__name__, repr(v)))))
+    return sorted(set(out))
+
+
+# ---- two live instances
+def pair_cfgs(rng, hits, miss):
+    delims = rng.choice(T.DELIM_SETS)
+    focus = None
+    if rng.random() < 0.6:
+        lines, focus = placed_tree(rng, hits, miss, rng.choice([4, 6, 8, 10, 12]))
+    else:
+        lines = rand_tree(rng, hits, miss, rng.choice([0.15, 0.4, 0.4, 0.8]), rng.choice([3, 5, 8, 12]))
+    a = {"syntax": rng.choice(T.SYNTAXES), "ignore_blank": rng.random() < 0.2, "delims": delims, "lines": lines}
+    r = rng.random()
+    if r < 0.08:
+        blines, muts = list(lines), ["identical"]
+    else:
+        pool = (rng.sample(hits, min(3, len(hits))) if hits else []) + (rng.sample(miss, min(3, len(miss))) if miss else [])
+        blines, muts = PL.variant(rng, lines, pool)
+    syntax, ign, ds = PL.option_variant(rng, a["syntax"], a["ignore_blank"], delims, T.SYNTAXES, T.DELIM_SETS)
+    return [a, {"syntax": syntax, "ignore_blank": ign, "delims": ds, "lines": blines}], muts, focus
+
+
+def mk_pair(cfgs, plan, regex, compiled, group, queries, tx, muts=(), origin="pair"):
+    subs = []
+    for i in plan:
+        c = cfgs[i]
+        s = (mk_tx if tx else mk)(c["syntax"], c["ignore_blank"], c["delims"], c["lines"], regex, compiled, group, queries, origin)
+        s["_same"] = 0
+        subs.append(s)
+    case = {"pair": True, "kind": "pair", "cfgs": cfgs, "plan": list(plan), "subs": subs, "mutations": list(muts), "_origin": origin,
+            "tx": bool(tx), "lines": cfgs[0]["lines"], "regex": regex, "compiled": compiled, "group": group, "queries": queries,
+            "syntax": cfgs[0]["syntax"], "ignore_blank": cfgs[0]["ignore_blank"], "delims": cfgs[0]["delims"]}
+    case["req"] = PL.wrap_req([s["req"] for s in subs])
+    return case
+
+
+def rand_pair(rng):
+    regex = rng.choice(REGEXES)
+    pat = re.compile(regex)
+    hits, miss = split_vocab(pat)
+    cfgs, muts, focus = pair_cfgs(rng, hits, miss)
+    g = rng.choice([x for x in [1, 1, 1, 2, 0] if x <= pat.groups])
+    tx = rng.random() < 0.35
+    n = max(len(cfgs[0]["lines"]), len(cfgs[1]["lines"]))
+    if tx:
+        qs = tx_queries(rng, cfgs[0]["lines"], rng.choice([3, 4, 6]), focus)
+    else:
+        qs = rand_queries(rng, cfgs[rng.randrange(2)]["lines"], rng.choice([3, 5, 8]))
+    for q in qs:
+        if q["op"] in ("typed", "match") and rng.random() < 0.6:
+            q["op"] = rng.choice(["iter", "iter", "list"])
+        if q["op"] in ("iter", "list") and rng.random() < 0.6:
+            q["recurse"] = 1
+        q["idx"] = min(q["idx"], n)
+    if focus is not None:
+        for q in qs[:2]:
+            q["idx"] = focus
+    return mk_pair(cfgs, PL.rand_plan(rng), regex, rng.random() < 0.2, g, qs, tx, muts)
+
+
+def impl_pair(case):
+    quiet_ccp()
+    parses = []
+    for c in case["cfgs"]:
+        try:
+            parses.append(T.parse_impl(dict(c, factory=False)))
+        except BaseException as e:  # noqa: BLE001
+            if type(e).__name__ == "CaseTimeout":
+                raise
+            parses.append("err:" + type(e).__name__)
+    tags = PL.tags_for([s["req"] for s in case["subs"]])
+    parts = []
+    for k, sub in enumerate(case["subs"]):
+        sub["omit"] = case.get("omit")
+        p = parses[case["plan"][k]]
+        parts.append((tags[k], p if isinstance(p, str) else _run_queries(p, sub, enc_val_x if case.get("tx") else enc_val)))
+    return PL.join_parts(parts)
+
+
+def pair_neighbours(case, rng):
+    for _ in range(120):
+        a = case["cfgs"][0]
+        lines, muts = PL.variant(rng, a["lines"], VOCAB[:12])
+        yield mk_pair([a, dict(case["cfgs"][1], lines=lines)], case["plan"], case["regex"], case["compiled"], case["group"],
+                      [dict(q) for q in case["queries"]], case.get("tx"), muts)
+
+
+def _pair_describe(case):
+    keys = ("syntax", "ignore_blank", "delims", "lines")
+    return {"two_live_instances": "both configs are parsed first, then the same queries are asked of the instances in the order of `plan`",
+            "A": {k: case["cfgs"][0][k] for k in keys}, "B": {k: case["cfgs"][1][k] for k in keys},
+            "B_differs_from_A_by": case.get("mutations"), "plan": "".join("AB"[i] for i in case["plan"]),
+            "regex": case["regex"], "compiled": case["compiled"], "group": case["group"], "queries": case["queries"]}
+
+
+_single = {"cases": cases, "impl": impl, "oracle": oracle, "compare": compare, "neighbours": neighbours, "nontrivial": nontrivial,
+           "describe": describe, "buckets": buckets}
+
+
+def cases(rng, tier):  # noqa: F811
+    yield from _single["cases"](rng, tier)
+    orng = __import__("random").Random(rng.random())
+    n = {"quick": 700, "thorough": 20000, "search": 600}[tier]
+    m = {"quick": 500, "thorough": 15000, "search": 300}[tier]
+
+    def more():
+        if tier != "search":
+            yield from tx_menu_cases()
+        for _ in range(n):
+            yield rand_tx_case(rng)
+        for _ in range(m if PL.enabled() else 0):
+            yield rand_pair(rng)
+    for c in more():
+        c["omit"] = orng.random() < 0.5
+        yield c
+
+
+def impl(case):  # noqa: F811
+    if case.get("pair"):
+        return impl_pair(case)
+    if case.get("kind") == "tx":
+        return _impl_tx(case)
+    return _single["impl"](case)
+
+
+def _sub_oracle(sub, text):
+    return _oracle_tx(sub, text) if sub.get("kind") == "tx" else _single["oracle"](sub, text)
+
+
+def oracle(case, ans):  # noqa: F811
+    if case.get("pair"):
+        return PL.oracle(case, ans, _sub_oracle)
+    if case.get("kind") == "tx":
+        return _oracle_tx(case, ans)
+    return _single["oracle"](case, ans)
+
+
+def compare(case, impl_ans, model_ans):  # noqa: F811
+    if case.get("pair"):
+        return PL.compare(impl_ans, model_ans, lambda text, m: _single["compare"](None, text, m))
+    return _single["compare"](case, impl_ans, model_ans)
+
+
+def neighbours(case, rng):  # noqa: F811
+    if case.get("pair"):
+        return pair_neighbours(case, rng)
+    if case.get("kind") == "tx":
+        return (rand_tx_case(rng) for _ in range(150))
+    return _single["neighbours"](case, rng)
+
+
+def nontrivial(case):  # noqa: F811
+    if case.get("pair"):
+        return PL.shared_parents(case["cfgs"][0]["lines"], case["cfgs"][1]["lines"]) > 0 and _nontrivial_plain(case["subs"][0])
+    if case.get("kind") == "tx":
+        return bool(_typed_classes(case))
+    return _single["nontrivial"](case)
+
+
+def describe(case):  # noqa: F811
+    if case.get("pair"):
+        return _pair_describe(case)
+    if case.get("kind") == "tx":
+        return dict(_describe_plain(case), kind="tx (defaults of several types, asked back to back in one call sequence)")
+    return _single["describe"](case)
+
+
+def buckets(case, ans):  # noqa: F811
+    if case.get("pair"):
+        out = ["kind:pair"] + PL.buckets(case) + ["pair:tx:%d" % bool(case.get("tx"))]
+        for s, (_, text) in zip(case["subs"], PL.split_parts(ans) or []):
+            out += ["pair:" + b for b in _buckets_plain(s, text) if b.startswith(("op:", "first:", "recurse:", "matches:"))]
+        return out
+    if case.get("kind") == "tx":
+        out = ["kind:tx"] + _buckets_plain(case, ans)
+        out += ["tx:default-type:" + type(q["default"]).__name__ + ":" + q["ty"] for q in case["queries"]]
+        out += ["tx:equal-but-differently-typed:" + c for c in _typed_classes(case)]
+        return out
+    return _single["buckets"](case, ans)
+
+
+RULE += (" TYPED DEFAULTS (kind tx, model Ccp.Model.TypedX, channel `typedx`): Python compares 0 == False == 0.0 == -0.0, 1 == True == 1.0, "
+         "1500 == 1500.0, -1 == -1.0, 7 == 7.0, 65535 == 65535.0 (equal hashes), but result_type(default) depends on the TYPE of the default. "
+         "416 two-query cases (every ordered pair of two members of such a class x str/int/float/IPv4Obj x re_match / re_match_typed / "
+         "re_match_iter_typed / CiscoConfParse.re_match_iter_typed, on a line that does not match), 96 whole-menu sequences (0, False, 0.0, 1, "
+         "True, 1.0, 1500, 1500.0, -1, -1.0, '', None and -0.0, 0.5, 2.25, 7, 7.0, '0', '1', '1500', '1500.0', 'True', ... in order and "
+         "reversed, typed and untyped) and 700 (quick) random cases of 3-8 extractions back to back in ONE impl() call whose defaults walk "
+         "through a class and then the menu (75 % one result type per case, 55 % configs without any match, 15 % untyped_default). The oracle "
+         "decides which line answers as before and, when none does, converts the default AS TYPED with Python's own str / int / float (or "
+         "hands it back as the object it is: bool results are told apart from ints). A float default is sent to the model by its positional "
+         "repr, asserted exact. PAIR STREAM (two LIVE instances; props/pairlib.py, channel `pair`): 500 (quick) cases, two configs from one "
+         "template (B = A with children re-texted / re-indented / commented / swapped / inserted / deleted / moved; options same or one "
+         "changed), BOTH parsed first, then the same 3-8 queries (biased to the recursive iter / list forms on a focus line with children; "
+         "35 % with typed-menu defaults) on corresponding lines in the orders ABA, ABAB, BAB, ABBA, AABA; each judged on its own instance and "
+         "compared with the model's answer for that instance alone.")
+LEVEL_TEXT += (" Defaults of every type (Ccp.Model.TypedX: default = None / str / int / bool / a float given exactly by sign, integer part and "
+               "fraction digits of its positional repr): typedX_old_defaults -- on the old defaults the extended helpers ARE the helpers above; "
+               "iterTypedX_first -- with a first matching line the answer is its converted group, whatever the default; iterTypedX_default / "
+               "matchTypedX_default / rootIterX_default / matchX_default -- when nothing matches the answer is the default itself "
+               "(untyped_default, re_match) or result_type(default) computed from the default as typed; convX_spec -- str(default), int() "
+               "truncating a float towards zero and mapping True/False to 1/0, float() leaving a float alone and mapping True/False to 1.0/0.0, "
+               "IPv4Obj as oracle; default_keeps_its_type -- an int, a float and a bool never have the same str() (an int has no decimal "
+               "point, a float has one, a bool starts with a letter) although 1500 == 1500.0 and 0 == False == 0.0 in Python: an answer "
+               "remembered for one of them is wrong for the others.")
+LEVEL_NOTE += (" Floats as defaults are restricted to those whose repr is positional and exact (|x| < 1e16, finitely many binary digits: "
+               "1500.0, -1.0, 0.5, 2.25, -0.0); inf / nan / exponent forms are not generated. Call ORDER is not in the model (it is a function "
+               "of one request): that an extraction does not depend on earlier extractions in the process, or on another live instance, holds "
+               "for the model by construction and is MEASURED for the code by the back-to-back sequences, the pair stream and the framework's "
+               "mixing pass (seeded change C05e -- a module-level lru_cache(typed=False) around result_type(value) -- is reported with the "
+               "two-query input default=0 then default=False, result_type=str).")
